@@ -251,6 +251,10 @@ def noteWrite (r : Nat) : M Unit := do
 
 def noteAppend (src result : Nat) : M Unit := do
   let s ← get
+  -- a second append to the same array object: in the real implementation both results may share
+  -- the spare capacity of the source, so the later one can overwrite elements of the earlier one
+  if (s.appendedFrom.lookup src).isSome then
+    throw (Err.excluded "append() applied twice to the same array object (hidden capacity)")
   match s.heap[result]? with
   | some (.arr st _ _) => set { s with appendedFrom := (src, st) :: s.appendedFrom }
   | _ => pure ()
